@@ -1,6 +1,8 @@
 (* C03 — Contract sector list equals what the signed revision commits to.
    Statements only; every proof is [exact lemma].  Model: Model.v (the code with
-   fixes/C03-updater-stale-oldroots.patch).
+   fixes/C03-updater-stale-oldroots.patch and, WP-G, with fixes/C06-revise-guard-at-commit.patch:
+   ReviseContract / ContractUpdater.Commit / RenewContract evaluate isGoodForModification at the tip of
+   that moment; the statements that serve C06's consequence clause are in Props_C06_Guard.v).
 
    Vocabulary
      meta            rhp2.MetaRoot as an arbitrary function of the root list (the operations carry
@@ -115,17 +117,22 @@ Theorem c03_failure_at_any_statement : forall s o k,
 Proof. exact fault_any_statement. Qed.
 Print Assumptions c03_failure_at_any_statement.
 
-(* a commit that needs a sector the host does not store is rejected as a whole *)
+(* a commit that needs a sector the host does not store is rejected as a whole (the contract still
+   revisable at the current tip: otherwise the commit is refused before the store is asked,
+   c06_late_revision_refused) *)
 Theorem c03_missing_sector_rejected : forall meta s u x nrev nfsize nmroot, reach meta s ->
   alookup u (upds s) = Some x -> acts_stored (stored (dbs s)) (u_acts x) = false ->
+  (forall c, alookup (u_cid x) (t1 (dbs s)) = Some c -> good1 (height s) c = true) ->
   step s (Commit1 u nrev nfsize nmroot None) = (s, ORes (Err EOther)).
 Proof. exact c03_commit_missing_l. Qed.
 Print Assumptions c03_missing_sector_rejected.
 
 (* the modifications the updater accepted are accepted by the store when their sectors are
-   stored (so "accepted" is not vacuous), and the served list becomes the updater's *)
+   stored and the contract is still revisable at the current tip (so "accepted" is not vacuous), and
+   the served list becomes the updater's *)
 Theorem c03_commit_accepted : forall meta s u x nrev nfsize nmroot, reach meta s ->
   alookup u (upds s) = Some x -> acts_stored (stored (dbs s)) (u_acts x) = true ->
+  (forall c, alookup (u_cid x) (t1 (dbs s)) = Some c -> good1 (height s) c = true) ->
   snd (step s (Commit1 u nrev nfsize nmroot None)) = ORes (Ok tt) /\
   cache_get (fst (step s (Commit1 u nrev nfsize nmroot None))) (u_cid x) = u_roots x.
 Proof. exact c03_commit_accepted_l. Qed.
